@@ -66,23 +66,56 @@ theorem ofInt_le_zero (n : Int) : ((XNum.ofInt n : ℝ) ≤ 0.0) ↔ n ≤ 0 := 
   rw [ofInt_real]; norm_num
 theorem ofInt_lt_zero (n : Int) : ((XNum.ofInt n : ℝ) < 0.0) ↔ n < 0 := by
   rw [ofInt_real]; norm_num
+theorem ofInt_le_zero' (n : Int) : ((XNum.ofInt n : ℝ) ≤ 0) ↔ n ≤ 0 := by
+  rw [ofInt_real]; norm_num
+theorem ofInt_lt_zero' (n : Int) : ((XNum.ofInt n : ℝ) < 0) ↔ n < 0 := by
+  rw [ofInt_real]; norm_num
 theorem zero_lit : (0.0 : ℝ) = 0 := by norm_num
 
+theorem propagateErr_full {s : Slot} (h : s.isFull = false) (e : Err) : propagateErr s (Slot.full e) = Except.ok (s.withErr e) := by
+  cases s <;> simp_all [Slot.isFull, Slot.withErr, propagateErr] <;> rfl
+@[simp] theorem withErr_empty (e : Err) : Slot.empty.withErr e = Slot.full e := rfl
+@[simp] theorem isFull_full (e : Err) : (Slot.full e).isFull = true := rfl
+@[simp] theorem isFull_empty : Slot.empty.isFull = false := rfl
+@[simp] theorem isFull_null : Slot.null.isFull = false := rfl
+@[simp] theorem withErr_null (e : Err) : Slot.null.withErr e = Slot.null := rfl
+theorem kev_lit : (12.39841930 : ℝ) = 12.3984193 := by norm_num
+
+theorem kev_ne : (12.3984193 : ℝ) ≠ 0 := by norm_num
+theorem avog_ne : (0.602214129 : ℝ) ≠ 0 := by norm_num
+theorem mec2_ne : (510.998928 : ℝ) ≠ 0 := by norm_num
+
 theorem JRel.value_eq {x y : ℝ} {s : Slot} (h : x = y) : JRel (.ok x) (.ok (y, s)) s := h ▸ JRel.value
+
+/-- a Java outcome that, when it is a value, is a positive one (what the `== 0.0` failure tests of the C callers rely on) -/
+def JPos (j : JM ℝ) : Prop := ∀ v, j = Except.ok v → 0 < v
+theorem JPos.error {e : JStop} : JPos (Except.error e) := fun _ h => by cases h
+theorem JPos.exp {y : ℝ} : JPos (Except.ok (XNum.exp y)) := fun _ h => by cases h; exact Real.exp_pos y
+theorem JPos.of_pos {y : ℝ} (h : 0 < y) : JPos (Except.ok y) := fun _ h' => by cases h'; exact h
+theorem JPos.ne {j : JM ℝ} {v : ℝ} (h : JPos j) (hv : j = Except.ok v) : v ≠ 0 := (h v hv).ne'
 
 /-- the simp set that evaluates both generated definitions one step; side conditions go to `omega` -/
 macro "jeq_simp" : tactic =>
   `(tactic| simp (disch := omega) only [*, wrapI_eq, jrd_flat2, jrd_flat2', jrd_vec, jrd_dyn, rd1_ok, rd2_ok, rd3_ok, chkI_ok, ↓reduceIte,
       not_true_eq_false, not_false_eq_true, bind_ok, bind_error, pure_eq_ok, throw_eq_error, jbind_ok, jbind_error, jpure_eq_ok,
-      jthrow_eq_error, jtry_ok, jtry_iae, jtry_nf, decide_eq_true_eq, deq_real, jdiv_real, ddiv_real, jlog_real, dlog_real, ofInt_le_zero, ofInt_lt_zero])
+      jthrow_eq_error, jtry_ok, jtry_iae, jtry_nf, decide_eq_true_eq, deq_real, jdiv_real, ddiv_real, jlog_real, dlog_real, ofInt_le_zero, ofInt_lt_zero, ofInt_le_zero', ofInt_lt_zero', zero_lit, eq_self_iff_true, ne_eq, withErr_empty, isFull_full, isFull_empty, isFull_null, withErr_null, kev_lit, kev_ne, avog_ne, mec2_ne, Bool.false_eq_true, propagateErr_full])
 
 /-- close a leaf -/
 macro "jeq_leaf" : tactic =>
   `(tactic| first
-    | exact JRel.fail' | exact JRel.fail | exact JRel.value | exact JRel.ub | exact JRel.nf
+    | with_reducible exact JRel.fail' | with_reducible exact JRel.fail | with_reducible exact JRel.fail_e | with_reducible exact JRel.value | with_reducible exact JRel.ub | with_reducible exact JRel.nf
     | omega
     | (exfalso; linarith)
-    | (apply JRel.value_eq; first | norm_num | (norm_num; ring) | (field_simp; ring)))
+    | (exfalso; exact absurd (le_antisymm (by assumption) (by assumption)) (by assumption))
+    | (with_reducible apply JRel.value_eq; first | norm_num | (norm_num; ring) | (field_simp; ring) | (simp_all; done)))
+
+/-- positivity of a Java result: split the guards of the Java definition, close the leaves -/
+macro "jpos_auto" : tactic =>
+  `(tactic| (
+    (try jeq_simp)
+    repeat' (first
+      | with_reducible exact JPos.error | with_reducible exact JPos.exp | (with_reducible apply JPos.of_pos; first | assumption | positivity | linarith)
+      | (split_ifs <;> (try jeq_simp)))))
 
 /-- alternate between closing leaves and splitting the guards of the two generated definitions -/
 macro "jeq_auto" : tactic =>
@@ -90,8 +123,17 @@ macro "jeq_auto" : tactic =>
     (try jeq_simp)
     repeat' (first
       | jeq_leaf
-      | (split_ifs <;> (try jeq_simp))
-      | (norm_num1; done)
-      | norm_num1)))
+      | (split_ifs <;> (try jeq_simp)))))
+
+/-- use the theorem `h : JRel (callee in Java) (callee in C) s` of a callee inside a caller: the three cases in which the callee does
+not return a value are closed at once (the caller's remaining calls are not reached), the goal that is left is the case
+`callee = value` on both sides, with the two equations in the context (`jeq_simp` rewrites with them). -/
+macro "jeq_use" h:term : tactic =>
+  `(tactic| (rcases (JRel.cases $h) with ⟨v, hc, hj⟩ | ⟨e, hc, hj⟩ | ⟨a, b, hc, hj⟩ | ⟨a, hc⟩ <;> [skip; (jeq_auto; done); (jeq_auto; done); (jeq_auto; done)]))
+
+/-- the same when the C caller tests the callee's value against 0: `p : JPos (callee in Java)` adds `value ≠ 0` -/
+macro "jeq_use_pos" h:term "," p:term : tactic =>
+  `(tactic| (rcases (JRel.cases $h) with ⟨v, hc, hj⟩ | ⟨e, hc, hj⟩ | ⟨a, b, hc, hj⟩ | ⟨a, hc⟩ <;>
+      [(have hne := JPos.ne $p hj); (jeq_auto; done); (jeq_auto; done); (jeq_auto; done)]))
 
 end Xrl
